@@ -1673,7 +1673,7 @@ func (e *Engine) goalDirectedInstances(o *Obligation, goalTerms []*Term) []*Term
 				continue
 			}
 			for i, at := range l.atoms {
-				if l.coef[i].Cmp(bigOne) != 0 {
+				if l.coef[i].Cmp(bigOne) != 0 || !pointerLike(at) {
 					continue
 				}
 				k := e.tb.Sub(a, at)
@@ -1725,4 +1725,18 @@ func exprString(e ast.Expr) string {
 	var sb strings.Builder
 	printer.Fprint(&sb, token.NewFileSet(), e)
 	return sb.String()
+}
+
+// pointerLike: a summand of an address that is plausibly the base pointer
+// (a pointer-valued input or allocation, or a pointer loaded from memory).
+func pointerLike(t *Term) bool {
+	switch t.op {
+	case "var":
+		return strings.HasSuffix(t.name, ".ptr") || strings.HasPrefix(t.name, "alloc.") || strings.HasPrefix(t.name, "make.") || strings.Contains(t.name, ".data")
+	case "concat":
+		return t.sort.W == 64
+	case "ite":
+		return pointerLike(t.args[1]) || pointerLike(t.args[2])
+	}
+	return false
 }
